@@ -44,6 +44,12 @@ def run(chk, facts, tier):
             tags = {input_tag(f): f for f in fns}
             for tag in ('pairing_no_input', 'pairing_yes_no', 'pairing_keyboard'):
                 fn = tags.get(tag)
+                if fn is None:
+                    # overload resolution: no overload names this input class; a single overload whose first parameter is a template type parameter takes it
+                    generic = [f for f in fns if input_tag(f) not in ('pairing_no_input', 'pairing_yes_no', 'pairing_keyboard') and f.params and (f.params[0].get('tk') == 'TemplateTypeParm' or not facts.cls('bluetoe::' + (input_tag(f) or '?')))]
+                    if len(generic) == 1:
+                        fn = generic[0]
+                        chk.note('%s::%s(%s): no overload for this input class, the generic overload at line %d applies' % (out_cls, fname, tag, fn.line))
                 if not chk.require(fn is not None, '%s::%s(%s) not found' % (out_cls, fname, tag)):
                     continue
                 local = spec['io_capability_of'][out_cls + '/' + tag]
